@@ -67,7 +67,13 @@ type Request struct {
 	// Group bool members in order to reduce Request object size.
 	parsedURI      bool
 	parsedPostArgs bool
-	uriParseErr    error
+
+	// bodyStreamUnread is set when a body stream that reads from the
+	// connection is dropped before the whole body was read. It belongs to
+	// the server loop, which clears it before it calls the handler and
+	// closes the connection when it finds it set afterwards.
+	bodyStreamUnread bool
+	uriParseErr      error
 
 	keepBodyBuffer bool
 
@@ -2397,6 +2403,10 @@ func (req *Request) closeBodyStream() error {
 		err = bsc.Close()
 	}
 	if rs, ok := req.bodyStream.(*requestStream); ok {
+		if !rs.fullyRead() {
+			// The rest of the body is still on the connection.
+			req.bodyStreamUnread = true
+		}
 		releaseRequestStream(rs)
 	}
 	req.bodyStream = nil
